@@ -1,16 +1,382 @@
-//! Hydro leg of C42 (second priority).
-use std::path::Path;
+//! Hydro leg of C42: a corpus of Hydro flows (public functions of `/repo/hydro_test`) is built
+//! by the child `compile_dump_hydro` with the real `hydro_lang` compiler under the same
+//! (hash seed, ASLR) configurations as the DFIR leg; the IR text, the per-location DFIR
+//! (`preview_compile` -> mermaid / surface / JSON / `as_code` tokens) and the production embedded
+//! code (`generate_embedded`) must be byte-identical.
+
+use std::collections::BTreeMap;
+use std::path::{Path, PathBuf};
+use std::process::Command;
+use std::sync::Mutex;
+use std::sync::atomic::{AtomicUsize, Ordering};
+use std::time::Instant;
 
 use serde_json::{Value, json};
+use simcore::runner::{known_for, load_findings, repo_head, verif_dir};
 
 use crate::Args;
-use crate::run::Work;
+use crate::run::{Cfg, ENGINE, PROP, Work, engine_dir, hash_seed_for, run_child};
 
-pub fn run_leg(_args: &Args, _work: &Work, _exit: &mut i32, _reported: &mut u64, _viol: &mut Vec<Value>) -> Value {
-    json!({"skipped": "compile_dump_hydro not built"})
+const ARTS: [&str; 3] = ["ir", "preview", "embedded"];
+
+fn child() -> PathBuf {
+    let exe = std::env::current_exe().unwrap_or_default();
+    exe.parent().map(|d| d.join("compile_dump_hydro")).unwrap_or_default()
 }
 
-pub fn do_replay(_v: &Value, _path: &Path) -> i32 {
-    eprintln!("HARNESS: hydro replay not available");
-    2
+fn manifest_dir() -> String {
+    // stageleft resolves crate names through `$CARGO_MANIFEST_DIR/Cargo.toml` at run time
+    engine_dir().join("hydro_dump").to_string_lossy().into_owned()
+}
+
+#[derive(Clone, Debug, PartialEq, Eq)]
+struct HLine {
+    status: String,
+    parts: [String; 3],
+    inproc: String,
+}
+
+fn parse(out: &str) -> Result<(BTreeMap<String, HLine>, u64), String> {
+    let mut m = BTreeMap::new();
+    let mut runs = 0;
+    for l in out.lines() {
+        if let Some(r) = l.strip_prefix("PIPELINE_RUNS ") {
+            runs = r.trim().parse().unwrap_or(0);
+        }
+        let Some(r) = l.strip_prefix("H ") else { continue };
+        let f: Vec<&str> = r.split(' ').collect();
+        if f.len() != 6 {
+            return Err(format!("malformed child line: {}", l.chars().take(200).collect::<String>()));
+        }
+        let val = |s: &str| s.split_once('=').map(|x| x.1.to_string()).unwrap_or_default();
+        m.insert(f[0].to_string(), HLine { status: f[1].to_string(), parts: [val(f[2]), val(f[3]), val(f[4])], inproc: val(f[5]) });
+    }
+    Ok((m, runs))
+}
+
+fn first_diff(a: &HLine, b: &HLine) -> Option<&'static str> {
+    if a.status != b.status {
+        return Some("status");
+    }
+    (0..3).find(|&k| a.parts[k] != b.parts[k]).map(|k| ARTS[k])
+}
+
+fn run_flow(flow: &str, cfg: Cfg, full: bool, reps: u64) -> Result<String, String> {
+    let md = manifest_dir();
+    let reps_s = reps.to_string();
+    let mut a = vec![flow, "--reps", &reps_s];
+    if full {
+        a.push("--full");
+    }
+    run_child(&child(), &a, cfg, &[("CARGO_MANIFEST_DIR", &md)])
+}
+
+fn sections(out: &str) -> BTreeMap<String, String> {
+    let mut m = BTreeMap::new();
+    let mut cur: Option<(String, String)> = None;
+    for l in out.lines() {
+        if let Some(r) = l.strip_prefix("@@@BEGIN ") {
+            cur = Some((r.split(' ').nth(1).unwrap_or("").to_string(), String::new()));
+        } else if l.starts_with("@@@END ") {
+            if let Some((n, t)) = cur.take() {
+                m.insert(n, t);
+            }
+        } else if let Some((_, t)) = cur.as_mut() {
+            t.push_str(l);
+            t.push('\n');
+        }
+    }
+    m
+}
+
+fn line_diff(a: &str, b: &str) -> String {
+    for (n, (x, y)) in a.lines().zip(b.lines()).enumerate() {
+        if x != y {
+            let common = x.chars().zip(y.chars()).take_while(|(p, q)| p == q).count();
+            let from = common.saturating_sub(80);
+            let cut = |s: &str| s.chars().skip(from).take(240).collect::<String>();
+            return format!("line {} col {common}: A=`{}` B=`{}`", n + 1, cut(x), cut(y));
+        }
+    }
+    format!("texts have {} vs {} lines", a.lines().count(), b.lines().count())
+}
+
+/// Build `flow` under both configurations with full texts; `Some((class, detail))` on a difference.
+/// `inproc` selects the oracle (in-process thread comparison under `a`, or cross-process `a` vs `b`).
+fn compare_flow(flow: &str, a: Cfg, b: Cfg, reps: u64, inproc: bool) -> Result<Option<(String, String)>, String> {
+    let oa = run_flow(flow, a, true, if inproc { reps } else { 0 })?;
+    let (pa, _) = parse(&oa)?;
+    let la = pa.get(flow).ok_or("child printed no H line")?;
+    let sa = sections(&oa);
+    if inproc {
+        let Some(r) = la.inproc.strip_prefix("DIFF:") else { return Ok(None) };
+        let art = r.split(':').next().unwrap_or("?").to_string();
+        let d = match (sa.get(&art), sa.get(&format!("inproc-other-{art}"))) {
+            (Some(x), Some(y)) => line_diff(x, y),
+            _ => String::new(),
+        };
+        return Ok(Some((format!("hydro/inproc/{art}"), format!("flow `{flow}`: two builds in one process (hash_seed={}) differ in `{art}`: {d}", a.hash_seed))));
+    }
+    let ob = run_flow(flow, b, true, 0)?;
+    let (pb, _) = parse(&ob)?;
+    let lb = pb.get(flow).ok_or("child printed no H line")?;
+    let sb = sections(&ob);
+    let kind = if a.hash_seed != b.hash_seed {
+        "hashseed"
+    } else if a.aslr != b.aslr {
+        "aslr"
+    } else {
+        "sameconfig"
+    };
+    if la.status != lb.status {
+        return Ok(Some((format!("hydro/{kind}/status"), format!("flow `{flow}`: build status {} vs {}", la.status, lb.status))));
+    }
+    for art in ARTS {
+        let (x, y) = (sa.get(art).map(|s| s.as_str()).unwrap_or(""), sb.get(art).map(|s| s.as_str()).unwrap_or(""));
+        if x != y {
+            return Ok(Some((
+                format!("hydro/{kind}/{art}"),
+                format!(
+                    "flow `{flow}`: `{art}` differs between hash_seed={} aslr={} and hash_seed={} aslr={}: {}",
+                    a.hash_seed,
+                    a.aslr,
+                    b.hash_seed,
+                    b.aslr,
+                    line_diff(x, y)
+                ),
+            )));
+        }
+    }
+    Ok(None)
+}
+
+fn same_class(flow: &str, a: Cfg, b: Cfg, reps: u64, class: &str) -> Result<Option<String>, String> {
+    let attempts = if class.contains("/aslr/") || class.contains("/sameconfig/") { 8 } else { 1 };
+    for _ in 0..attempts {
+        if let Some((c, d)) = compare_flow(flow, a, b, reps, class.contains("/inproc/"))? {
+            if c == class {
+                return Ok(Some(d));
+            }
+        }
+    }
+    Ok(None)
+}
+
+pub fn run_leg(args: &Args, _work: &Work, exit: &mut i32, reported: &mut u64, viol: &mut Vec<Value>) -> Value {
+    let t0 = Instant::now();
+    if !child().exists() {
+        println!("hydro leg: skipped (compile_dump_hydro is not built)");
+        return json!({"skipped": "compile_dump_hydro not built"});
+    }
+    let thorough = args.tier == "thorough";
+    let n_seeds = args.hash_seeds.unwrap_or(if thorough { 16 } else { 4 }).max(2);
+    let reps = 1u64;
+    let list = match Command::new(child()).arg("--list").output() {
+        Ok(o) if o.status.success() => String::from_utf8_lossy(&o.stdout).to_string(),
+        _ => {
+            eprintln!("HARNESS: compile_dump_hydro --list failed");
+            *exit = 2;
+            return json!({});
+        }
+    };
+    let flows: Vec<String> = list.lines().map(|s| s.trim().to_string()).filter(|s| !s.is_empty()).collect();
+    let mut cfgs: Vec<Cfg> = vec![];
+    for i in 0..n_seeds {
+        if i == 0 {
+            cfgs.push(Cfg { hash_seed: hash_seed_for(args.seed, 0), aslr: false });
+            cfgs.push(Cfg { hash_seed: hash_seed_for(args.seed, 0), aslr: true });
+        } else {
+            cfgs.push(Cfg { hash_seed: hash_seed_for(args.seed, i), aslr: i % 2 == 1 });
+        }
+    }
+    cfgs.push(cfgs[0]);
+    // biggest flows first (paxos, two_pc dominate the wall time)
+    let mut order: Vec<usize> = (0..flows.len()).collect();
+    order.sort_by_key(|&i| match flows[i].as_str() {
+        "paxos" => 0,
+        "two_pc" => 1,
+        _ => 2,
+    });
+    let jobs: Vec<(usize, usize)> = order.iter().flat_map(|&f| (0..cfgs.len()).map(move |c| (f, c))).collect();
+    let next = AtomicUsize::new(0);
+    let results: Mutex<Vec<Option<Result<(BTreeMap<String, HLine>, u64), String>>>> = Mutex::new((0..jobs.len()).map(|_| None).collect());
+    std::thread::scope(|s| {
+        for _ in 0..args.threads.max(1) {
+            s.spawn(|| {
+                loop {
+                    let j = next.fetch_add(1, Ordering::Relaxed);
+                    if j >= jobs.len() {
+                        break;
+                    }
+                    let (f, c) = jobs[j];
+                    let r = run_flow(&flows[f], cfgs[c], false, reps).and_then(|o| parse(&o));
+                    results.lock().unwrap()[j] = Some(r);
+                }
+            });
+        }
+    });
+    let mut lines: Vec<BTreeMap<String, HLine>> = (0..cfgs.len()).map(|_| BTreeMap::new()).collect();
+    let mut runs = 0u64;
+    for (j, r) in results.into_inner().unwrap().into_iter().enumerate() {
+        match r {
+            Some(Ok((m, n))) => {
+                runs += n;
+                lines[jobs[j].1].extend(m);
+            }
+            Some(Err(e)) => {
+                eprintln!("HARNESS: hydro child failed: {e}");
+                *exit = 2;
+                return json!({});
+            }
+            None => {
+                eprintln!("HARNESS: hydro job {j} did not run");
+                *exit = 2;
+                return json!({});
+            }
+        }
+    }
+    let last = cfgs.len() - 1;
+    let mut found: BTreeMap<String, (String, Cfg, Cfg)> = BTreeMap::new();
+    let mut ok_flows = 0;
+    for f in &flows {
+        let Some(l0) = lines[0].get(f) else {
+            eprintln!("HARNESS: hydro child reported nothing for flow {f}");
+            *exit = 2;
+            return json!({});
+        };
+        if l0.status == "ok" {
+            ok_flows += 1;
+        }
+        for (c, cfg) in cfgs.iter().enumerate() {
+            let Some(l) = lines[c].get(f) else {
+                eprintln!("HARNESS: hydro child reported nothing for flow {f}");
+                *exit = 2;
+                return json!({});
+            };
+            if let Some(r) = l.inproc.strip_prefix("DIFF:") {
+                let art = r.split(':').next().unwrap_or("?");
+                found.entry(format!("hydro/inproc/{art}")).or_insert((f.clone(), *cfg, *cfg));
+            }
+            if c == 0 {
+                continue;
+            }
+            let (kind, r) = if c == last {
+                ("sameconfig", 0)
+            } else if c == 1 {
+                ("aslr", 0)
+            } else {
+                ("hashseed", if cfg.aslr { 1 } else { 0 })
+            };
+            if let Some(art) = first_diff(&lines[r][f], l) {
+                found.entry(format!("hydro/{kind}/{art}")).or_insert((f.clone(), cfgs[r], *cfg));
+            }
+        }
+    }
+    let evaluations = flows.len() * cfgs.len();
+    println!(
+        "hydro leg: {} flows ({} built) x {} configurations = {} compared builds, {} pipeline runs, {:.1}s; differing classes: {}",
+        flows.len(),
+        ok_flows,
+        cfgs.len(),
+        evaluations,
+        runs,
+        t0.elapsed().as_secs_f64(),
+        found.len()
+    );
+    if ok_flows * 2 < flows.len() {
+        eprintln!("HARNESS: only {ok_flows}/{} Hydro flows build — the corpus no longer matches hydro_test", flows.len());
+        *exit = 2;
+        return json!({});
+    }
+    let findings = load_findings();
+    let exe = std::env::current_exe().unwrap_or_default();
+    for (n, (class, (flow, a, b))) in found.iter().take(4).enumerate() {
+        let detail = match same_class(flow, *a, *b, reps, class) {
+            Ok(Some(d)) => d,
+            Ok(None) => {
+                eprintln!("HARNESS: difference {class} of flow {flow} did not reproduce");
+                *exit = 2;
+                return json!({});
+            }
+            Err(e) => {
+                eprintln!("HARNESS: {e}");
+                *exit = 2;
+                return json!({});
+            }
+        };
+        let dir = verif_dir().join("replays");
+        let _ = std::fs::create_dir_all(&dir);
+        let path = dir.join(format!("{PROP}-{}-hydro-{flow}-{n}.json", args.seed));
+        let j = json!({
+            "property": PROP, "engine": ENGINE, "kind": "hydro", "seed": args.seed, "repo_head": repo_head(),
+            "violation": class, "detail": detail, "flow": flow,
+            "hash_seed_a": a.hash_seed, "aslr_a": a.aslr, "hash_seed_b": b.hash_seed, "aslr_b": b.aslr, "inproc_reps": reps,
+            "how_to_replay": "e7_seedsim C42 --replay <this file>  (builds `flow` with compile_dump_hydro under LD_PRELOAD=shim.so for both (VERIF_HASH_SEED, ASLR) settings and compares IR / per-location DFIR / embedded code bytes)",
+        });
+        if std::fs::write(&path, serde_json::to_string_pretty(&j).unwrap_or_default()).is_err() {
+            eprintln!("HARNESS: cannot write replay {}", path.display());
+            *exit = 2;
+            return json!({});
+        }
+        let out = Command::new(&exe).args([PROP, "--replay", path.to_str().unwrap_or("")]).output();
+        let confirmed = matches!(&out, Ok(o) if String::from_utf8_lossy(&o.stdout).contains(&format!("REPLAY-VIOLATION class={class}")));
+        if !confirmed {
+            eprintln!("HARNESS: violation {class} did not reproduce from {} in a fresh process", path.display());
+            *exit = 2;
+            return json!({});
+        }
+        if let Some(f) = known_for(&findings, PROP, class) {
+            println!("KNOWN-FINDING: property={PROP} {}", f.what);
+            viol.push(json!({"class": class, "known_finding": true, "replay": path, "detail": detail}));
+            continue;
+        }
+        println!("violation class={class} flow={flow}: {detail}");
+        println!("VIOLATION property={PROP} replay={}", path.display());
+        viol.push(json!({"class": class, "known_finding": false, "replay": path, "detail": detail}));
+        *reported += 1;
+        *exit = 1;
+    }
+    json!({
+        "flows": flows, "flows_built": ok_flows, "configurations": cfgs.len(), "hash_seeds": n_seeds,
+        "evaluations": evaluations, "compile_pipeline_runs": runs, "differing_classes": found.len(),
+        "artefacts": "Debug text of the Hydro IR; per location DFIR mermaid + surface syntax + graph JSON + as_code tokens (preview_compile); prettyplease'd generate_embedded code for the flows with named channels",
+        "real_components": ["hydro_lang FlowBuilder / IR / emit (compile/ir)", "DeployFlow::preview_compile", "EmbeddedDeploy::generate_embedded (compile/embedded.rs)", "dfir_lang partitioning + as_code", "stageleft q! splicing"],
+        "wall_s": t0.elapsed().as_secs_f64(),
+        "sample": lines[0].iter().next().map(|(k, v)| json!({"flow": k, "status": v.status, "ir": v.parts[0], "preview": v.parts[1], "embedded": v.parts[2]})),
+    })
+}
+
+pub fn do_replay(v: &Value, path: &Path) -> i32 {
+    let flow = v["flow"].as_str().unwrap_or("").to_string();
+    let a = Cfg { hash_seed: v["hash_seed_a"].as_u64().unwrap_or(0), aslr: v["aslr_a"].as_bool().unwrap_or(true) };
+    let b = Cfg { hash_seed: v["hash_seed_b"].as_u64().unwrap_or(1), aslr: v["aslr_b"].as_bool().unwrap_or(true) };
+    let reps = v["inproc_reps"].as_u64().unwrap_or(1);
+    let expect = v["violation"].as_str().unwrap_or("").to_string();
+    if !child().exists() {
+        eprintln!("HARNESS: {} is missing (run /verif/e7_seedsim/run.sh)", child().display());
+        return 2;
+    }
+    println!("replay property={PROP} hydro flow `{flow}`");
+    let attempts = if expect.contains("/aslr/") || expect.contains("/sameconfig/") { 16 } else { 1 };
+    for _ in 0..attempts {
+        match compare_flow(&flow, a, b, reps, expect.contains("/inproc/")) {
+            Ok(Some((class, detail))) => {
+                println!("REPLAY-VIOLATION class={class} detail={detail}");
+                let fs = load_findings();
+                if let Some(f) = known_for(&fs, PROP, &class) {
+                    println!("KNOWN-FINDING: property={PROP} {}", f.what);
+                    return 0;
+                }
+                println!("VIOLATION property={PROP} replay={}", path.display());
+                return 1;
+            }
+            Ok(None) => {}
+            Err(e) => {
+                eprintln!("HARNESS: {e}");
+                return 2;
+            }
+        }
+    }
+    println!("REPLAY-OK expected_class={expect} (outputs byte-identical on this tree)");
+    0
 }
